@@ -32,8 +32,14 @@ func init() {
 		case 3:
 			if multi {
 				for k := 1 + r.Intn(3); k > 0; k-- {
+					// one line in three has letters that take two bytes (é, ü): positions are characters, not bytes
+					latin := r.Intn(3) == 0
 					for j := r.Intn(w + 4); j > 0; j-- {
-						l = append(l, rune('a'+r.Intn(26)))
+						if latin && r.Intn(3) == 0 {
+							l = append(l, []rune{0xe9, 0xfc}[r.Intn(2)])
+						} else {
+							l = append(l, rune('a'+r.Intn(26)))
+						}
 					}
 					l = append(l, '\n')
 				}
